@@ -6,6 +6,9 @@ result class and the document after each. -/
 namespace Nima.Drv.Edit
 open Nima
 
+-- the driver runs the model with the name comparison of the source as it is
+attribute [local instance] NameCmp.model
+
 def sPayload (p : Payload) : SExp := .list (p.map sNat)
 def sOptPayload : Option Payload → SExp
   | none => .atom "-"
